@@ -307,7 +307,7 @@ func genAgainst(r *rng, f jsonline.Format) *jnode {
 		return num("-0.0", "1.5", "1e3", "-1e-400", "100000000000", "253402214400", "12345678901234567890", "9007199254740993", "9223372036854775807")
 	case jsonline.Date:
 		if r.intn(3) != 0 {
-			return str("2021-09-24T10:11:12Z", "2021-03-04T05:06:07+02:00", "2021-02-30", "2021-09-24", "20210924", "2021-9-4", "0000-01-01", "9999-12-31")
+			return str("2021-09-24T10:11:12Z", "2021-03-04T05:06:07+02:00", "2021-02-30", "2021-09-24", "20210924", "2021-9-4", "0000-01-01", "9999-12-31", "2021/09/24", "2021.09.24", "24-09-2021")
 		}
 		return num("0", "1632478272", "253402300800", "100000000000")
 	case jsonline.DateTime:
@@ -1218,6 +1218,53 @@ func (c *templCtx) valueImportOracle() {
 	}
 }
 
+// C11 at column level: a binary column mapped to a fixed-width type accepts exactly the payloads of that width and
+// re-emits exactly the bytes it accepted (every exponent / NaN payload class included); bool is the one-byte
+// normalising special case
+func (c *templCtx) binaryColumnOracle() {
+	widths := map[string]int{"int8": 1, "uint8": 1, "byte": 1, "int16": 2, "uint16": 2, "int32": 4, "uint32": 4, "rune": 4, "float32": 4,
+		"int64": 8, "uint64": 8, "int": 8, "uint": 8, "float64": 8}
+	special := [][]byte{{}, {0}, {0xff}, {0, 0}, {0xff, 0x7f}, {0, 0, 0x80, 0x7f}, {1, 0, 0x80, 0x7f}, {0, 0, 0xc0, 0xff}, {0, 0, 0x80, 0xff}, {0, 0, 0, 0x80},
+		{0, 0, 0, 0, 0, 0, 0xf0, 0x7f}, {1, 0, 0, 0, 0, 0, 0xf0, 0x7f}, {0, 0, 0, 0, 0, 0, 0xf8, 0xff}, {0, 0, 0, 0, 0, 0, 0xf0, 0xff}, {0, 0, 0, 0, 0, 0, 0, 0x80},
+		{0xff, 0xff, 0xff, 0xff, 0xff, 0xff, 0xff, 0xff}, {0xff, 0xff, 0xff, 0xff}, {1, 2, 3}, {1, 2, 3, 4, 5}, {1, 2, 3, 4, 5, 6, 7, 8, 9}, []byte("true"), []byte("12345678")}
+	for tn, w := range widths {
+		tpl := jsonline.NewTemplate().WithMappedBinary("c", typeSample[tn])
+		payloads := append([][]byte{}, special...)
+		for i := 0; i < 12; i++ {
+			b := make([]byte, c.r.intn(18))
+			for j := range b {
+				b[j] = byte(c.r.next())
+			}
+			payloads = append(payloads, b)
+		}
+		for _, pl := range payloads {
+			line := fmt.Sprintf(`{"c":%q}`, base64.StdEncoding.EncodeToString(pl))
+			ctx := map[string]interface{}{"stream": "template", "column": "binary(" + tn + ")", "line": line, "payload_bytes": fmt.Sprintf("% x", pl)}
+			var row jsonline.Row
+			var err error
+			if p, msg := guard(func() { row, err = tpl.GetImporter(strings.NewReader(line)).ReadOne() }); p {
+				c.violate("C17", "panic in Importer.ReadOne: "+msg, ctx)
+				continue
+			}
+			c.rep.OracleChecks["C11"]++
+			if len(pl) != w {
+				if err == nil {
+					c.violate("C11", fmt.Sprintf("a %d-byte payload is accepted by a binary column mapped to %s (%d bytes)", len(pl), tn, w), ctx)
+				}
+				continue
+			}
+			if err != nil || row == nil {
+				c.violate("C11", fmt.Sprintf("a well-sized payload is rejected by a binary column mapped to %s: %v", tn, err), ctx)
+				continue
+			}
+			out, eerr, _, ep, _ := exportOnce(tpl, row)
+			if eerr != nil || ep || string(out) != line+"\n" {
+				c.violate("C11", fmt.Sprintf("the column re-emits %q (%v), not the payload it accepted", out, eerr), ctx)
+			}
+		}
+	}
+}
+
 func (c *templCtx) typedRoundTrips() {
 	for _, f := range allFormats {
 		for _, t := range losslessTypes(f) {
@@ -1334,7 +1381,7 @@ func (c *templCtx) fixedPointSweep() {
 // more values for the sweep: numbers beyond float64, fractional / exponent timestamps, date look-alikes
 // with one-digit fields, control characters Go and JSON quote differently, arrays and objects whose
 // members are not in alphabetical order
-var sweepMore = []string{`253402300799`, `253402300800`, `253402250400`, `253402214400`, `-62167219200`, `-62167219201`, `-62167180000`, `-62167250000`, `"9999-12-31T23:30:00-01:00"`, `"0000-01-01T00:30:00+01:00"`, `1e400`, `-1E+999`, `1e-400`, `1632823189.5`, `1.6e9`, `0.0`, `"2021-9-4"`, `"2021-09-4"`, `"2021-9-04"`, `"21-09-24"`,
+var sweepMore = []string{`"2023/02/03"`, `"2023.02.03"`, `"03/02/2023"`, `"2023-02-03Z"`, `"a\n\n"`, `"w\r\n\r\n"`, `"\n"`, `" x "`, `200000000000000`, `100000000000000`, `-200000000000000`, `253402300799`, `253402300800`, `253402250400`, `253402214400`, `-62167219200`, `-62167219201`, `-62167180000`, `-62167250000`, `"9999-12-31T23:30:00-01:00"`, `"0000-01-01T00:30:00+01:00"`, `1e400`, `-1E+999`, `1e-400`, `1632823189.5`, `1.6e9`, `0.0`, `"2021-9-4"`, `"2021-09-4"`, `"2021-9-04"`, `"21-09-24"`,
 	`"2021-09-24T10:11:12"`, `"2021-09-24 10:11:12Z"`, `"a\u0007b"`, `"\u000b"`, `"\u007f"`, `"\u0000"`, `"\ud83d\ude00"`, `"\u2028"`,
 	`[]`, `[1,"a",null]`, `{}`, `{"z":1,"a":2}`, `{"z":{"n":1,"b":[{"y":1,"x":2}]},"a":null,"m":"t"}`, `" 1"`, `"0x10"`, `"+5"`, `".5"`, `"5."`, `"007"`, `"NaN"`, `"Infinity"`,
 	`"1e400"`, `"QQ="`, `"QQ"`, `"Q Q=="`, `"////"`, `"-_-_"`}
@@ -1390,6 +1437,9 @@ func templateStream(seed uint64, tier string, outDir string, props map[string]bo
 	}
 	if props["C10"] || props["C17"] {
 		c.valueImportOracle()
+	}
+	if props["C11"] {
+		c.binaryColumnOracle()
 	}
 	if props["C05"] || props["C04"] || props["C03"] || props["C01"] {
 		c.fixedPointSweep()
